@@ -219,7 +219,7 @@ func vcliC17Session(r *verifrt.R, c *verifrt.Case, simple bool) {
 				}
 				switch {
 				case int64(st.openCntAtOpen) >= floor:
-					sc.viol("max-concurrent-streams-exceeded",
+					sc.viol("nonstrict-conn-at-limit-got-new-stream",
 						"non-strict mode: HEADERS for stream %d (request %s) while %d streams are open in the server's view; MAX_CONCURRENT_STREAMS has not been above %s on this connection at any time since the request was started (now: %s), so the connection was at its limit when it was chosen for the request",
 						st.id, st.tag, st.openCntAtOpen, vcliLim(floor), vcliLim(st.limitAtOpen))
 				case int64(st.openCntAtOpen) >= st.limitAtOpen:
